@@ -57,6 +57,59 @@ def mztp(params):
     return {"violated": not ok, "got": repr(got), "want": repr(want)}
 
 
+def handlers(params):
+    """a handler keeps prescribing its own configuration after other handlers have been constructed"""
+    from panoptica.utils.edge_case_handling import EdgeCaseHandler
+    from panoptica.metrics import Metric
+    cfg, cfgB, npred, nref = params["cfg"], params.get("cfgB") or {k: (v + 1) % 5 for k, v in params["cfg"].items()}, params["npred"], params["nref"]
+    bad = []
+    try:
+        hA = _handler(["IOU"], cfg, params.get("std", 0))
+        hD = EdgeCaseHandler()
+        _handler(["IOU", "DSC"], cfgB, params.get("stdB", 1))
+        EdgeCaseHandler()
+        cases = [(npred, nref), (0, 0), (0, 3), (3, 0), (2, 2)]
+        for np_, nr_ in cases:
+            got = hA.handle_zero_tp(Metric.IOU, 0, np_, nr_)
+            want = ECR_VALUE[ECR_ORDER[cfg[scenario(np_, nr_)]]]
+            if not (got[0] is True and same(got[1], want)):
+                bad.append(f"configured handler, n_pred={np_}, n_ref={nr_}: prescribes {got[1]!r} for IOU, its configuration says {want!r}")
+            gd = hD.handle_zero_tp(Metric.DSC, 0, np_, nr_)
+            wd = float("nan") if np_ + nr_ == 0 else 0.0
+            if not (gd[0] is True and same(gd[1], wd)):
+                bad.append(f"default handler, n_pred={np_}, n_ref={nr_}: prescribes {gd[1]!r} for DSC, the default is {wd!r}")
+    except Exception as e:
+        bad.append(f"raised {type(e).__name__}: {e}"[:200])
+    return {"violated": bool(bad), "problems": bad[:6]}
+
+
+MULTI_CFG = {"RVD": (0, 1, 2, 3), "ASSD": (1, 2, 3, 4), "IOU": (2, 3, 4, 0), "DSC": (3, 4, 0, 1), "clDSC": (4, 0, 1, 2)}
+_SCN = ["NO_INSTANCES", "EMPTY_PRED", "EMPTY_REF", "NORMAL"]
+
+
+def result_multi(params):
+    """several list metrics listed in a given order, each with its own configuration; tp == 0"""
+    from panoptica.panoptica_result import PanopticaResult
+    from panoptica.utils.edge_case_handling import EdgeCaseHandler, EdgeCaseResult
+    from panoptica.metrics import Metric
+    order = params["order"]
+    bad = []
+    for npred, nref in [(params.get("npred", 0), params.get("nref", 0)), (0, 0), (0, 2), (2, 0), (1, 1)]:
+        try:
+            cfgs = {m: dict(zip(_SCN, MULTI_CFG[m])) for m in order}
+            h = EdgeCaseHandler({Metric[m]: _mztp(cfgs[m]) for m in order}, empty_list_std=EdgeCaseResult[ECR_ORDER[1]])
+            res = PanopticaResult(reference_arr=None, prediction_arr=None, num_pred_instances=npred, num_ref_instances=nref, tp=0,
+                                  list_metrics={Metric[m]: [] for m in order}, edge_case_handler=h)
+            for m in order:
+                want = ECR_VALUE[ECR_ORDER[cfgs[m][scenario(npred, nref)]]]
+                got = getattr(res, SQ_ATTR[m])
+                if not same(got, want):
+                    bad.append(f"metrics listed as {order}, n_pred={npred}, n_ref={nref}: {SQ_ATTR[m]}={got!r}, its handler prescribes {want!r}")
+        except Exception as e:
+            bad.append(f"raised {type(e).__name__}: {e}"[:200])
+    return {"violated": bool(bad), "problems": bad[:6]}
+
+
 def result(params):
     from panoptica.panoptica_result import PanopticaResult
     from panoptica.metrics import Metric, MetricMode
